@@ -320,7 +320,7 @@ def minimise(pool, ops, i):
 def run(ctx):
     rep = ctx.reporter(PROP, LEVEL)
     quick = ctx.tier == "quick"
-    n = int((900 if quick else 20000) * ctx.scale)
+    n = int((3000 if quick else 60000) * ctx.scale)
     max_ops = 4 if quick else 6
     histories = [make_history(ctx.seed, i, max_ops=(4 if (quick or i % 3) else 6)) for i in range(n)]
     distinct, samples = set(), []
